@@ -87,8 +87,8 @@ CHECKS.update({
               "and MSSQL must not depend on the literal.", "DESIGN.md section 6 C18",
               "property-based testing (Hypothesis): differential oracle + metamorphic skeleton invariance"),
     "C19": _c("Generated pipelines are compiled with offline SQLite, PostgreSQL and MSSQL engines (one SELECT or a permitted "
-              "refusal, deterministic text), and the complete operator x signature x backend table is compiled.",
-              "DESIGN.md section 6 C19", "property-based testing with a validity predicate + complete enumeration of the operator table",
+              "refusal, deterministic text), and the complete operator x signature x backend table and cast (source x target x strict) x backend table are compiled.",
+              "DESIGN.md section 6 C19", "property-based testing with a validity predicate + complete enumeration of the operator and cast tables",
               _NOTE + " PostgreSQL / MSSQL statements are never executed; DuckDB and DB2 drivers are absent."),
     "C20": _c("For generated pipelines (biased towards one-row, one-cell, empty results) every export target is compared with "
               "export(Polars()), ColExpr.export with the mutate column, and Table(exported) with the frame.",
